@@ -39,6 +39,13 @@ CLAIMED['C14'] = dict(design='2/C14', text='Instance::relax_constraint / restore
     'collection of (id, function, equality, metadata) is unchanged, every id is in exactly one list, reasons are recorded, a failing operation leaves the instance '
     'equal to before; after the sequence Instance::evaluate at a symbolic state gives unchanged per-constraint values and feasibility, relaxed feasibility = conjunction over the active ones.',
     note='R-model; sequences longer than the bound (the property quantifies to 8) are outside; library models trusted and validated natively each run.')
+CLAIMED['C09'] = dict(design='2/C09', text='Instance::penalty_method and uniform_penalty_method (with the Function algebra they call) are executed symbolically on instances with 0-2 '
+    'active and 0-1 previously removed constraints, constraint functions unset/constant/linear/quadratic over non-contiguous ids, symbolic coefficients, sense and '
+    'equalities: z3 proves no active constraint remains, every input constraint (previously removed ones included) is kept with unchanged id/function/equality, one '
+    'tagged fresh parameter per penalised constraint (one for uniform) with ids disjoint from variable ids, variables/sense/dependencies carried over, and the new '
+    'objective equals f + sum w_c g_c^2 (resp. w * sum g_c^2) coefficient-wise.',
+    note='R-model with bounded coefficient magnitudes; the defect found by this check (previously removed constraints dropped) was repaired by a fix: commit, see known_findings.json; '
+    'library models trusted and validated natively each run.')
 NOT_APPLICABLE = {
     'C20': 'artifact round-trip lives in ocipkg/tar/sha2/serde_json/chrono and the file system: none of it is in the crate MIR and all of it is foreign/IO under Kani; a model would verify the model, not the code',
 }
